@@ -1784,8 +1784,14 @@ class BaseBosonicState(BaseState):
 
         rho = 0
         for i in range(self.num_weights):
+            # the bosonic data is stored in (x1, p1, x2, p2, ...) order, thewalrus expects
+            # (x1, x2, ..., p1, p2, ...)
             rho += weights[i] * twq.density_matrix(
-                mus[i], covs[i], hbar=self._hbar, normalize=False, cutoff=cutoff
+                xpxp_to_xxpp(mus[i]),
+                xpxp_to_xxpp(covs[i]),
+                hbar=self._hbar,
+                normalize=False,
+                cutoff=cutoff,
             )
         return rho
 
@@ -1905,8 +1911,10 @@ class BaseBosonicState(BaseState):
 
         prob = 0
         for i in range(self.num_weights):
+            # the bosonic data is stored in (x1, p1, x2, p2, ...) order, thewalrus expects
+            # (x1, x2, ..., p1, p2, ...)
             prob += self._weights[i] * twq.density_matrix_element(
-                self._mus[i], self._covs[i], n, n, hbar=self._hbar
+                xpxp_to_xxpp(self._mus[i]), xpxp_to_xxpp(self._covs[i]), n, n, hbar=self._hbar
             )
         return prob.real
 
